@@ -1,7 +1,7 @@
 (* C01 — Two endpoints built on the library interoperate, even across transport loss.
    Statements only.  Nothing else may be added to this file. *)
 From MQ Require Import Base.Prelude Alloc.Alloc Alloc.AllocProofs Framing.Framing Framing.FramingProofs Conn.Types Conn.ConnRecord Conn.Step
-                       Corr.ConnTrace Conn.Scope Conn.Session Conn.IdsQuota Conn.Own Conn.OwnFrame Conn.OwnStep Conn.Run Conn.PairQos Conn.PairQos0 Conn.PairQos5 Conn.PairSeq Conn.PairSeq5 Conn.PairConc Conn.PairBi Conn.PairConc5 Conn.PairBi5 Conn.PairHandshake5 Conn.PairHandshake311 Conn.PairConcIds Conn.PairConcIds5 Conn.PairBiIds Conn.PairBiIds5 Conn.PairQuiescence Conn.PairManual Conn.PairManual5 Conn.PairManualSeq Conn.PairManualSeq5 Conn.PairHandshakeSeq Conn.SessInv Conn.PairLoss Conn.PairLossAcc Conn.PairLossS Conn.PairHandshakeP Conn.PairLossIds Conn.PairLossSIds.
+                       Corr.ConnTrace Conn.Scope Conn.Session Conn.IdsQuota Conn.Own Conn.OwnFrame Conn.OwnStep Conn.Run Conn.PairQos Conn.PairQos0 Conn.PairQos5 Conn.PairSeq Conn.PairSeq5 Conn.PairConc Conn.PairBi Conn.PairConc5 Conn.PairBi5 Conn.PairHandshake5 Conn.PairHandshake311 Conn.PairConcIds Conn.PairConcIds5 Conn.PairBiIds Conn.PairBiIds5 Conn.PairQuiescence Conn.PairManual Conn.PairManual5 Conn.PairManualSeq Conn.PairManualSeq5 Conn.PairHandshakeSeq Conn.SessInv Conn.PairLoss Conn.PairLossAcc Conn.PairLossS Conn.PairHandshakeP Conn.PairLossIds Conn.PairLossSIds Conn.PairSeqMixed Conn.PairSeqMixedFresh.
 
 (* what the pair property rests on, each proved for ALL states of one endpoint:
    (i) delivery in any fragmentation is the same byte stream (C09) *)
@@ -141,6 +141,55 @@ Theorem C01_pair_sequence_exactly_once : forall gs gr ps cs cr,
   end.
 Proof. exact run_seq_ok. Qed.
 Print Assumptions C01_pair_sequence_exactly_once.
+
+(* ... with QoS 0 publications anywhere in the sequence (Conn/PairSeqMixed.v): [run_mixed] is [run_seq] with one more kind of
+   step - a QoS 0 message is published without an identifier, the one packet requested is handed over, and the run answers
+   [Fail] unless it is notified once and nothing else happens on either side (no answer, no error, nothing released) *)
+Theorem C01_pair_mixed_sequence_exactly_once : forall gs gr ps cs cr,
+  pair_inv gs cs cr -> Forall v311_any ps ->
+  match run_mixed gs gr cs cr ps with
+  | Done cs' cr' d => d = ps /\ pair_inv gs cs' cr'
+  | AppPre => True
+  | Fail => False
+  end.
+Proof. exact run_mixed_ok. Qed.
+Print Assumptions C01_pair_mixed_sequence_exactly_once.
+
+(* a step stops on the application's precondition only when it is an acknowledged exchange: a QoS 0 publication has none *)
+Theorem C01_pair_mixed_step : forall gs gr cs cr p, pair_inv gs cs cr -> v311_any p ->
+  match exchange_any gs gr cs cr p with
+  | Done cs' cr' d => d = [p] /\ pair_inv gs cs' cr'
+  | AppPre => k_qos p <> 0
+  | Fail => False
+  end.
+Proof. exact exchange_any_ok. Qed.
+Print Assumptions C01_pair_mixed_step.
+
+(* QoS 0 AT MOST ONCE, for any number of them: the run always completes, and the allocator, store, awaited sets (F8) of both
+   endpoints and the receiver's handled identifiers are exactly what they were - there is nothing to retransmit from *)
+Theorem C01_pair_qos0_sequence_leaves_nothing : forall gs gr ps cs cr, pair_inv gs cs cr -> Forall (fun p => v311_pub p 0) ps ->
+  exists cs' cr', run_mixed gs gr cs cr ps = Done cs' cr' ps /\ pair_inv gs cs' cr' /\ F8 cs' cs /\ F8 cr' cr /\ c_qos2 cr' = c_qos2 cr.
+Proof. exact run_mixed_qos0_only. Qed.
+Print Assumptions C01_pair_qos0_sequence_leaves_nothing.
+
+(* ... end to end from objects created with [conn_new]: handshake, then any mixed sequence in either publishing direction *)
+Theorem C01_fresh_v311_mixed_sequence : forall gA gB cn ca ps,
+  1 <= g_idmax gA -> 1 <= g_idmax gB -> role_client_ok gA = true -> role_server_ok gB = true ->
+  k_type cn = T_CONNECT -> k_ver cn = V311 -> k_flag cn = true ->
+  k_type ca = T_CONNACK -> k_ver ca = V311 -> k_rc ca = 0 -> k_flag ca = false ->
+  Forall v311_any ps ->
+  let A0 := set_auto_pub (conn_new gA V311) true in
+  let B0 := set_auto_pub (conn_new gB V311) true in
+  exists A1 e1 B1 e2 B2 e3 A2 e4,
+    step gA A0 (OSend cn) = Ok (A1, e1, []) /\ sends e1 = [cn] /\
+    deliver gB B0 cn = Ok (B1, e2) /\ notifies e2 = [cn] /\
+    step gB B1 (OSend ca) = Ok (B2, e3, []) /\ sends e3 = [ca] /\
+    deliver gA A1 ca = Ok (A2, e4) /\ notifies e4 = [ca] /\
+    errors e1 = [] /\ errors e2 = [] /\ errors e3 = [] /\ errors e4 = [] /\
+    ran (run_mixed gA gB A2 B2 ps) ps (pair_inv gA) /\
+    ran (run_mixed gB gA B2 A2 ps) ps (pair_inv gB).
+Proof. exact fresh_v311_mixed_sequence. Qed.
+Print Assumptions C01_fresh_v311_mixed_sequence.
 
 (* ... and the same for v5.0 (no topic alias in play; Receive Maximum and Maximum Packet Size negotiated): the pair
    invariant now says that BOTH Receive Maximum accounts are at zero between exchanges — every slot an exchange takes
@@ -1164,3 +1213,26 @@ Example C01_pair_server_to_client_nonvacuous :
   | _, _ => False
   end.
 Proof. vm_compute. repeat split; try reflexivity; try discriminate; intros; try discriminate; auto. Qed.
+
+(* the mixed-sequence theorem is not vacuous: QoS 0 messages between acknowledged exchanges that reuse identifiers - the run
+   answers Done, all seven are notified in order, and nothing is left on either side *)
+Example C01_pair_mixed_sequence_nonvacuous :
+  let gs := mkCfg RClient 65535 2 in
+  let gr := mkCfg RServer 65535 2 in
+  let cn := mkPkt 1 V311 0 0 false false [] None 0 0 14 false 0 true 0 None None None None None in
+  let ca := mkPkt 2 V311 0 0 false false [] None 0 0 4 true 0 false 0 None None None None None in
+  let ops_s := [OSetAutoPub true; OSend cn; ORecv [32;2;0;0] (PROk ca)] in
+  let ops_r := [OSetAutoPub true; ORecv [16;12;0;4;77;81;84;84;4;2;0;0;0;0] (PROk cn); OSend ca] in
+  let pb := fun id q pay => mkPkt 3 V311 id q false false [116] None pay 0 (7 + pay) false 0 false 0 None None None None None in
+  let p0 := fun pay => mkPkt 3 V311 0 0 false false [116] None pay 0 (5 + pay) false 0 false 0 None None None None None in
+  let ps := [p0 2; pb 1 1 0; p0 0; pb 1 2 3; p0 4; p0 1; pb 1 2 1] in
+  Forall v311_any ps /\
+  match run_state gs (conn_new gs V311) ops_s, run_state gr (conn_new gr V311) ops_r with
+  | Some cs, Some cr =>
+      match run_mixed gs gr cs cr ps with
+      | Done cs' cr' d => d = ps /\ c_qos2 cr' = [] /\ c_store cs' = [] /\ a_pool (c_pid cs') = [(1, 65535)]
+      | _ => False
+      end
+  | _, _ => False
+  end.
+Proof. split; [repeat constructor; unfold v311_any, v311_pub; cbn; tauto|]. vm_compute. repeat split; reflexivity. Qed.
